@@ -1,6 +1,7 @@
 import PhyVerif.Driver.Json
 import PhyVerif.Driver.C01
 import PhyVerif.Model.C02
+import PhyVerif.Model.C02b
 namespace PhyVerif.Driver
 open Lean PhyVerif PhyVerif.C01 PhyVerif.C02
 
@@ -25,7 +26,11 @@ def runC02 (op : String) (j : Json) : R Json := do
     let lens ← getNats j "parts"; let nch ← getNat j "nch"
     let parts := mkTParts lens nch
     let steps ← fld j "steps" >>= asArr
+    -- derivations run statement by statement on the object store (Model/C02b); evaluation reads the heap of
+    -- per-reader operation lists `Store.abs` (theorem appendOp_refines_derive: this is `derive` on the abstract heap)
+    let mut st : Store TCell := ⟨[[]], [0]⟩
     let mut h : Heap TCell := [[]]
+    let mut agree := true
     let mut outs : List Json := []
     for s in steps do
       let k ← getStr s "k"
@@ -33,19 +38,24 @@ def runC02 (op : String) (j : Json) : R Json := do
       | "derive" =>
         let r ← getNat s "from"; let t ← getNat s "tok"
         h := (derive h r (tagOp t)).1
+        st := run st (appendOpProgram st r (tagOp t))
+        agree := agree && (st.abs.map List.length == h.map List.length)
       | "cols" =>
         let r ← getNat s "from"; let c ← fld s "cols" >>= asColSel
         h := (derive h r (.cols c)).1
+        st := run st (appendOpProgram st r (.cols c))
+        agree := agree && (st.abs.map List.length == h.map List.length)
       | "eval" =>
         let r ← getNat s "reader"; let it ← fld s "item" >>= asItem
         let res := match s.getObjVal? "cols" with
-          | .ok v => if v.isNull then pure (eval h parts r it) else do
+          | .ok v => if v.isNull then pure (eval st.abs parts r it) else do
               let c ← asColSel v
-              pure (evalCols h parts r it c)
-          | .error _ => pure (eval h parts r it)
+              pure (evalCols st.abs parts r it c)
+          | .error _ => pure (eval st.abs parts r it)
         outs := outs ++ [jEval (← res)]
       | _ => throw s!"C02 step {k}"
-    pure (Json.mkObj [("evals", Json.arr outs.toArray), ("n_readers", jNat h.length)])
+    pure (Json.mkObj [("evals", Json.arr outs.toArray), ("n_readers", jNat st.readers.length),
+                      ("store_refines_heap", Json.bool agree)])
   | _ => .error s!"C02: unknown op {op}"
 
 end PhyVerif.Driver
